@@ -604,7 +604,7 @@ func genWorld(t *rapid.T, maxFiles int, recCombo, http, shadows bool) *World {
 			if rapid.Bool().Draw(t, "samenameswap") {
 				a, b = b, a
 			}
-			kind := rapid.SampledFrom([]string{"subset", "default", "required", "constraint", "nested-default"}).Draw(t, "samenamekind")
+			kind := rapid.SampledFrom([]string{"subset", "default", "required", "constraint", "nested-default", "ref-target"}).Draw(t, "samenamekind")
 			base := func() Obj {
 				return Obj{{"type", "object"}, {"properties", Obj{{"subx", Obj{{"type", "string"}}}, {"subn", Obj{{"type", "object"}, {"properties", Obj{{"deep", Obj{{"type", "integer"}}}}}}}}}}
 			}
@@ -619,6 +619,15 @@ func genWorld(t *rapid.T, maxFiles int, recCombo, http, shadows bool) *World {
 			case "default":
 				da = setProp(da, "subx", Obj{{"type", "string"}, {"default", "from-a"}})
 				db = setProp(db, "subx", Obj{{"type", "string"}, {"default", "from-b"}})
+			case "ref-target":
+				// the two differ only in WHICH definition a property refers to
+				if len(a.Defs) == 0 || len(b.Defs) == 0 {
+					db = append(db, KV{"required", []any{"subx"}})
+					kind = "required"
+					break
+				}
+				da = setProp(da, "subr", Obj{{"$ref", "#/" + defsKey(a.Doc) + "/" + a.Defs[0]}})
+				db = setProp(db, "subr", Obj{{"$ref", "#/" + defsKey(b.Doc) + "/" + b.Defs[0]}})
 			case "required":
 				db = append(db, KV{"required", []any{"subx"}})
 			case "constraint":
